@@ -8,6 +8,7 @@ from .oblig import rebuild, run_concrete
 
 def replay(ref, inputs):
     ob = rebuild(ref)
+    ob.tag = ref.get("tag")
     kind = getattr(ob, "kind", "sym")
     if kind == "rt":
         st, detail = ob.replay_rt(inputs)
